@@ -1,5 +1,6 @@
 mod common;
 mod c06;
+mod c09;
 mod c10;
 mod c12;
 mod c13;
@@ -63,6 +64,7 @@ fn main() {
     }));
     let rep = match prop.as_str() {
         "c06" => c06::run(&opts),
+        "c09" => c09::run(&opts),
         "c10" => c10::run(&opts),
         "c12" => c12::run(&opts),
         "c13" => c13::run(&opts),
